@@ -125,6 +125,19 @@ def impl_static(X, Y, sigma, chunk):
     return call(go)
 
 
+def impl_static_fitted_elsewhere(X, Y, Xother, sigma, chunk):
+    """the stand-alone statistic (what the permutation test evaluates on re-split samples) called through a detector that
+    was FITTED on another reference: it must be the statistic of the samples it is given"""
+    from frouros.detectors.data_drift.batch import MMD
+
+    def go():
+        det = MMD(kernel=kernel_of(sigma), chunk_size=chunk)
+        det.fit(X=Xother)
+        return float(det.statistical_method(X, Y, **det.statistical_kwargs))
+
+    return call(go)
+
+
 def impl_setters(X, Y, sigma, chunk):
     """kernel and chunk_size assigned through the public setters AFTER construction: compare and the stand-alone
     statistic (what the permutation test evaluates) must both use them; returns (fitted, static)"""
@@ -323,6 +336,19 @@ def run(ck: Check):
                     dict(clause="estimator", path="setters"),
                     dict(replay_kind="batch", what="kernel / chunk_size assigned through the setters: compare or the stand-alone statistic differs from the unbiased estimator with that kernel", X=X.tolist(), Y=Y.tolist(), sigma=sigma, chunk_size=cset, path="setters", got=r, expected=expected),
                 )
+        # the stand-alone statistic through a detector fitted on ANOTHER reference (own generator, no draw from `rng`)
+        import random as _random
+
+        prng = _random.Random(len(corr) * 7919 + 909)
+        Xo = np.array([prng.gauss(0.3, 1.1) for _ in range(n)]) if d is None else np.array([[prng.gauss(0.3, 1.1) for _ in range(d)] for _ in range(n)])
+        cfe = prng.choice(chunks)
+        rfe = impl_static_fitted_elsewhere(X, Y, Xo, sigma, cfe)
+        ck.count("static_after_other_fit_cases")
+        if isinstance(rfe, str) or not close(rfe, expected, 1e-9, 1e-12):
+            ck.violation(
+                dict(clause="estimator", path="static-after-other-fit"),
+                dict(replay_kind="batch", what="statistical_method(X, Y, **statistical_kwargs) of a detector fitted on another reference is not the unbiased estimator of the X and Y it was given", X=X.tolist(), Y=Y.tolist(), fitted_on=Xo.tolist(), sigma=sigma, chunk_size=cfe, path="static-after-other-fit", got=rfe, expected=expected),
+            )
         ck.case(dict(kind="batch", data=kind, ndim=1 if d is None else 2, d=d, n=n, m=m, sigma=sigma, chunk_sizes=len(chunks), mmd=expected), nontrivial=ragged, key=repr((X.tolist(), Y.tolist(), sigma)))
         ck.count("data_" + kind)
         ck.count("ndim_1" if d is None else f"dim_{d}")
